@@ -204,3 +204,34 @@ func mutate(rng *rand.Rand, d []byte) []byte {
 	}
 	return out
 }
+
+// digitRunInputs: numbers whose integer, fraction or exponent part is a run of k digits (k up to 24),
+// followed by every byte value, and the same runs with one position replaced by every byte value:
+// word-at-a-time digit scanners are wrong only for particular run lengths and alignments.
+func digitRunInputs(thorough bool, fn func([]byte)) {
+	digits := "123456789012345678901234567890"
+	parts := []struct{ pre, post string }{{"", ""}, {"0.", ""}, {"1e", ""}, {"-7.5e+", ""}, {"3.", "e5"}, {"", ".5"}, {"-", ""}}
+	for _, pt := range parts {
+		for k := 1; k <= 24; k++ {
+			run := digits[:k]
+			for b := 0; b < 256; b++ {
+				fn([]byte(pt.pre + run + pt.post + string([]byte{byte(b)})))
+				if thorough || b%4 == 0 || (b >= 0x2f && b <= 0x3f) {
+					fn([]byte("[" + pt.pre + run + pt.post + string([]byte{byte(b)}) + "8]"))
+				}
+			}
+			fn([]byte(pt.pre + run + pt.post))
+			// one position of the run replaced
+			if k == 9 || k == 17 || (thorough && k > 2) {
+				for pos := 0; pos < k; pos++ {
+					for _, b := range []byte("/:;<=>?@ .eE+-\x00\x10 \x39\x40") {
+						x := []byte(run)
+						x[pos] = b
+						fn([]byte(pt.pre + string(x) + pt.post))
+						fn([]byte("{\"a\":[1," + pt.pre + string(x) + pt.post + "]}"))
+					}
+				}
+			}
+		}
+	}
+}
